@@ -22,7 +22,11 @@ vars == <<cfg, phase, out, ret>>
 Accept(c, v) == /\ (~c.hasA \/ c.allowed[v])
                 /\ (~c.hasC \/ c.check[v])
                 /\ (~c.hasS \/ c.schema[v] # Raises)
-Image(c, v)  == IF c.hasS THEN c.schema[v] ELSE v
+(* Python values that are equal although of different type (10 and 10.0, 0 and False) have  *)
+(* ids of their own - check and schema tell them apart - but as an OUTPUT they are one and   *)
+(* the same value (an assignment of an equal value changes nothing): c.canon[id] = the id     *)
+(* of the class representative                                                                *)
+Image(c, v)  == c.canon[IF c.hasS THEN c.schema[v] ELSE v]
 
 (* the constructor validates initdef (and InputExp's expired value) *)
 ConstructOk(c) == /\ (c.initdef # 0 => Accept(c, c.initdef))
